@@ -414,7 +414,7 @@ Section Match.
 
   (** bare `Concurrent` matches every failure *)
   Theorem bare_matches_all l : isinstance (Node l) Bare = true /\ except_catches (Node l) Bare = true.
-  Proof. rewrite isinstance_is_issubclass. destruct l; split; reflexivity. Qed.
+  Proof. destruct l; split; reflexivity. Qed.
 
   Lemma bare_rejects_plain c i : isinstance (Leaf c i) Bare = false.
   Proof. reflexivity. Qed.
